@@ -263,7 +263,14 @@ pub fn fields(rng: &mut Rng, t: u16, name_pool: &mut dyn FnMut(&mut Rng) -> Vec<
                 v.extend(rng.bytes(l));
                 out.push(Fv::Raw(v));
             }
-            F::Bitmap => out.push(Fv::Raw(bitmap(rng))),
+            F::Bitmap => {
+                let mut b = bitmap(rng);
+                if t == T_NSEC && b.is_empty() {
+                    // an NSEC lists at least NSEC and RRSIG
+                    b = bitmap_of(&[T_RRSIG, T_NSEC]);
+                }
+                out.push(Fv::Raw(b));
+            }
             F::Rest => {
                 let min = match t {
                     T_ZONEMD => 12,
